@@ -27,7 +27,7 @@ def task_get_error(ctx):
     the density handed in; inactive (already converged) molecules keep their stored errors."""
     fn = ctx.under_contract(SCF + ":get_error")
     eps = real("eps")
-    n = 2
+    n = 2 if ctx.tier == "quick" else 3
     for active in ((True, True), (True, False), (False, True)):
         for use_diis in (False, True):
             def thunk():
@@ -74,7 +74,7 @@ def task_get_error(ctx):
                         ctx.prove(tag + ".mol%d.inactive-beyond-a-threshold-is-flagged" % m, Sym(E.implies((~ok_before).n, flag.n)), pc=p.pc)
     x = real("x")
     ctx.canary("loosened-threshold", Sym(E.implies((x <= 3 * real("eps")).n, (x <= 2 * real("eps")).n)), [real("eps") > 0])
-    ctx.assume_note("shape-bounded: two molecules, 2x2 densities; thresholds read from the module constants (2, 15, 50)")
+    ctx.assume_note("shape-bounded: two molecules, %dx%d densities; thresholds read from the module constants (2, 15, 50)" % (n, n))
 
 
 # ---------------------------------------------------------------------------
